@@ -12,6 +12,10 @@ indexes of one holder.  Ops (one per line; ids, index, field and view names are 
   sources <index> <to ids csv|->       cluster.fragSources(to, index)             -> plan | err:<kind>
   job add|remove <id>                  unprotectedGenerateResizeJobByAction       -> ids=a:0,b:1 instr=<plan> | err:<kind>
   clean <self>                         holderCleaner.CleanHolder                  -> remaining fragments i/f/v/s ... | -
+  follower <self> <coordinator> <STATE>  make the current cluster value the one of node <self> (not a new cluster):
+                                       local node, coordinator id, cluster state (STARTING|NORMAL|DEGRADED|RESIZING) -> ok
+  status <STATE> <ids csv|-> <coordinator>  cluster.mergeClusterStatus(ClusterStatus{State, Nodes}) on that node
+                                       -> <state after> [node ids after] | remaining fragments (or -)
 
 plan = `node{frag<src|src,frag<src} node{}`: for every node of the target cluster (ascending id) the
 frags it must fetch (ascending) and, per frag, the set of nodes the code can name as source (the
@@ -32,6 +36,17 @@ namespace PV.C21.Drv
 structure St where
   cluster : Cluster := { nodes := [], replicaN := 1 }
   indexes : List Index := []
+  follower : Bool := false          -- a `follower` line was seen since the last `cluster` line
+  state : CState := .normal
+  self : Id := []
+  coordinator : Id := []
+
+def parseState (s : String) : Option CState :=
+  if s = "STARTING" then some .starting else if s = "NORMAL" then some .normal
+  else if s = "DEGRADED" then some .degraded else if s = "RESIZING" then some .resizing else none
+
+def showState : CState → String
+  | .starting => "STARTING" | .normal => "NORMAL" | .degraded => "DEGRADED" | .resizing => "RESIZING"
 
 def strLt (a b : String) : Bool := idLt (toId a) (toId b)
 
@@ -147,7 +162,7 @@ def step (s : St) (ws : List String) : St × Ans :=
     match r.toNat? with
     | some r =>
       let nodes := (csvIds ids).foldl addNode []
-      ({ s with cluster := { nodes := nodes, replicaN := r } }, ans (showIds nodes))
+      ({ s with cluster := { nodes := nodes, replicaN := r }, follower := false }, ans (showIds nodes))
     | none => bad
   | ["idx", name, schema, locals, remote] =>
     match csvNats? locals, csvNats? remote with
@@ -225,6 +240,33 @@ def step (s : St) (ws : List String) : St × Ans :=
       if all.isEmpty then "-" else " ".intercalate ((sortBy tagLt all).map (fun t => ofId t.1 ++ "/" ++ showFrag t.2))
     ({ s with indexes := idxs' },
       ans2 (render (cleanIndex nextF c self)) (render (Spec.cleaned nextF c self)) "clean")
+  | ["follower", self, coord, st] =>
+    match parseState st with
+    | some st => ({ s with follower := true, self := toId self, coordinator := toId coord, state := st }, ans "ok")
+    | none => bad
+  | ["status", st, ids, coord] =>
+    match parseState st, s.follower with
+    | some st, true =>
+      let f : Follower := { cluster := c, state := s.state, self := s.self, coordinator := s.coordinator,
+                            indexes := s.indexes }
+      let cs : Status := { state := st, nodes := csvIds ids, coordinator := toId coord }
+      let f' := mergeClusterStatus nextF f cs
+      -- every node count the merge can pass through hashes the available shards
+      if !assumeAll [c.nodes.length, f'.cluster.nodes.length, (csvIds ids).length, (csvIds ids).length + 1]
+          s.indexes c.partitionN then (s, ans "assume-violated:next") else
+      let render := fun (st : CState) (nodes : List Id) (fr : List (List Nat × List Frag)) =>
+        let all := fr.flatMap (fun e => e.2.map (fun x => (e.1, x)))
+        showState st ++ " " ++ showIds nodes ++ " | " ++
+          (if all.isEmpty then "-" else " ".intercalate ((sortBy tagLt all).map (fun t => ofId t.1 ++ "/" ++ showFrag t.2)))
+      let isCoord := s.coordinator = s.self
+      let specNodes := if isCoord then c.nodes else
+        PV.C20.Spec.members ((if c.nodes.contains s.self then [s.self] else []).foldl PV.C20.Spec.join
+          (cs.nodes.foldl PV.C20.Spec.join []))
+      let specState := if isCoord then s.state else st
+      ({ s with cluster := f'.cluster, indexes := f'.indexes, state := f'.state, coordinator := f'.coordinator },
+        ans2 (render f'.state f'.cluster.nodes (f'.indexes.map (fun ix => (ix.name, ix.locals))))
+             (render specState specNodes (Spec.followerFrags nextF f cs)) "status")
+    | _, _ => bad
   | _ => bad
 
 end PV.C21.Drv
